@@ -390,6 +390,7 @@ func runFullRead(c *Ctx) {
 				want ast.Expr
 			}
 			var reads []rd
+			alias := ""
 			cfg.EachNode(func(rr NodeRef) {
 				as, ok := rr.Node().(*ast.AssignStmt)
 				if !ok || len(as.Rhs) != 1 || len(as.Lhs) != 2 {
@@ -400,12 +401,39 @@ func runFullRead(c *Ctx) {
 					return
 				}
 				b, ok := isRead(info, rc)
-				if !ok || rootObj(info, b) != bufObj || !cfg.Dominates(rr, r) {
+				if !ok || !cfg.Dominates(rr, r) {
+					return
+				}
+				// the same storage: the buffer itself, or a local that holds a cut of it (chunk := buf[:chunkLen]) on either side
+				baseOf := func(o types.Object) types.Object {
+					if v, ok := o.(*types.Var); ok && !v.IsField() {
+						if own := owningFunc(f, v); own != nil {
+							if ds := allDefs(own, v); len(ds) == 1 {
+								if sl, ok := ast.Unparen(ds[0]).(*ast.SliceExpr); ok {
+									if ro := rootObj(own.Info(), sl.X); ro != nil {
+										return ro
+									}
+								}
+							}
+						}
+					}
+					return o
+				}
+				if ro := rootObj(info, b); ro == nil || baseOf(ro) != baseOf(bufObj) {
 					return
 				}
 				var want ast.Expr
 				if sl, ok := ast.Unparen(b).(*ast.SliceExpr); ok && sl.High != nil && sl.Low == nil {
 					want = sl.High
+				}
+				// the buffer is a local that holds the cut: chunk := buf[:chunkLen]; the read fills len(chunk) = chunkLen bytes
+				if id, ok := ast.Unparen(b).(*ast.Ident); ok && want == nil {
+					for _, d := range resolveExprsAll(f, id) {
+						if sl, ok := ast.Unparen(d).(*ast.SliceExpr); ok && sl.High != nil && sl.Low == nil {
+							want = sl.High
+							alias = id.Name
+						}
+					}
 				}
 				reads = append(reads, rd{ObjOf(info, as.Lhs[0]), want})
 			})
@@ -434,7 +462,7 @@ func runFullRead(c *Ctx) {
 						op = token.LEQ
 					}
 				}
-				if ObjOf(g.Info(), x) != rdn || types.ExprString(y) != want {
+				if ObjOf(g.Info(), x) != rdn || (types.ExprString(y) != want && !(alias != "" && types.ExprString(y) == "len("+alias+")")) {
 					return "", false, false
 				}
 				// the read fills buf[:want], so n <= want always: n >= want is n == want
